@@ -4,7 +4,8 @@
    dimension / mode sizes / ranks, stop arguments, rank-growth window) and the number of sweeps allowed (fuel). *)
 From Coq Require Import List Arith Lia PeanoNat Bool ZArith.
 From TV Require Import Num.Ops Lin.BigSum Lin.Mat TT.Chain Model.Cross Model.CrossNum Proofs.CrossIdx Proofs.CrossGeo
-  Proofs.CrossP Proofs.Cross05P Proofs.Cross05PSim Proofs.Cross05PInterp Proofs.Cross05PNum Proofs.Cross05PEx.
+  Proofs.CrossP Proofs.Cross05P Proofs.Cross05PSim Proofs.Cross05PInterp Proofs.Cross05PNum Proofs.Cross05PRtl
+  Proofs.Cross05PEx.
 Import ListNotations.
 
 Section C05.
@@ -253,3 +254,101 @@ Proof. exact ex_num_hyps. Qed.
 Example C05_cross_exact_ltr_example_values :
   map (ttval OZ (sY (iterate stepZN 2 s0N))) [[0; 0]; [1; 0]; [0; 1]; [1; 1]] = [1; 2; 2; 4]%Z.
 Proof. exact ex_num_values. Qed.
+
+(* ================================================================================================================
+   The way back (right-to-left half sweep) and the full sweep: what teneva.cross RETURNS at a sweep end.
+   Candidate column number t at right index set Rs:  rcand Rs n t = [t mod n] ++ Rs[t / n]  (Model/Cross.v inew false);
+   the right-to-left _iter works on the transposed unfolding Z'[t, a] = Z[a, t mod n, t / n], the core is
+   G[s, j, c] = B[j + n c, s] (reshape of B^T), the pending factor (Q[ind] R)^T is folded into the left neighbour. *)
+Section C05rtl.
+Context {T : Type} (K : ops T).
+Hypothesis Rth : rng K.
+Variable qr : mat T -> mat T * mat T.
+Variable mvI : mat T -> nat -> nat -> list nat.
+Variable mvB : mat T -> list nat -> mat T.
+Variable A : row -> T.
+
+(* iter_realises_scheme, right to left: the rows selected on the transposed unfolding are in range, B interpolates
+   the transposed value matrix on the sampled rows Ir (rsamp_ok: B Z'[ind] = Z'), the pending factor holds the target
+   values at the selected candidate columns *)
+Theorem C05_iter_realises_scheme_rtl :
+  forall (Ir Ic : option rows) (n k dmin dmax : nat),
+  let r1 := rk Ir in let r2 := rk Ic in
+  let p := pvalsN K r1 n r2 (map A (batch n Ir Ic)) in
+  let Zm := unfoldZ K false r1 n r2 p in
+  let ind := maxvol_w (pickN K qr mvI) k false (mkc r1 n r2 p) dmin dmax in
+  qr_ok_at K qr Zm -> mv_ok_at K mvI mvB (fst (qr Zm)) dmin dmax ->
+  Forall (fun t => t < n * length (orl Ic)) ind /\
+  rsamp_ok K A (orl Ir) n ind (fun t s => mget K (Bof K qr mvB false r1 n r2 p ind) t s) (orl Ic) /\
+  (forall s a, s < length ind -> a < r1 ->
+     mget K (mmul K (mrows K (fst (qr Zm)) ind) (snd (qr Zm))) s a =
+     A (nth a (orl Ir) [] ++ rcand (orl Ic) n (nth s ind O))).
+Proof. exact (iter_rtl_realises K Rth qr mvI mvB A). Qed.
+
+Variable isinf : T -> bool.
+Variable f : nat -> rows -> option (list T).
+Variable cb : option (nat -> bool).
+Variable erank : nat -> list (@mcore (core T)) -> T.
+Variable accuracy : nat -> list (@mcore (core T)) -> list (@mcore (core T)) -> T.
+Variable accdata : nat -> list (@mcore (core T)) -> T.
+Variable C : @cfg T (core T).
+Notation stepN := (step K isinf f cb (ponesN K) (pdotLN K) (pdotRN K) (pvalsN K) (pickN K qr mvI)
+                        (pcoreGN K qr mvB) (pfacRN K qr) erank accuracy accdata C).
+Notation runN := (run K isinf f cb (ponesN K) (pdotLN K) (pdotRN K) (pvalsN K) (pickN K qr mvI)
+                      (pcoreGN K qr mvB) (pfacRN K qr) erank accuracy accdata C).
+
+(* cross_exact, right-to-left half sweep, from any state s1 at the turn-around of a sweep: if at every position the
+   sampled rows (left index sets of s1) span the unfolding of the target on the candidate columns of the current
+   right index set and QR / maxvol meet their contracts there (rpos_ok), the cores held after the d steps - the state
+   at the end of the sweep, whether the driver then stops (Done) or starts the next sweep - evaluate to the target
+   at EVERY multi-index *)
+Theorem C05_cross_exact_rtl :
+  (forall k I, f k I = Some (map A I)) -> m_max C = None ->
+  forall s1, 1 <= d C -> s_pc s1 = Run true false (d C - 1) -> k_stop (sK s1) = None -> k_cache (sK s1) = None ->
+  length (sY s1) = d C -> length (sIc s1) = S (d C) ->
+  nth 0 (sIr s1) None = None -> nth (d C) (sIc s1) None = None ->
+  (forall k, k < d C -> rpos_ok K qr mvI mvB A C s1 (d C - 1 - k) (iterate stepN k s1)) ->
+  forall q, Forall2 lt q (nsN C) -> ttval K (sY (iterate stepN (d C) s1)) q = A q.
+Proof. exact (cross_exact_rtl K Rth qr mvI mvB A isinf f cb erank accuracy accdata C). Qed.
+
+(* full sweep of the model driver from any sweep head (composition of the two half sweeps) *)
+Theorem C05_cross_exact_full_sweep :
+  (forall k I, f k I = Some (map A I)) -> m_max C = None ->
+  forall s0, 1 <= d C -> s_pc s0 = Run true true 0 -> k_stop (sK s0) = None -> k_cache (sK s0) = None ->
+  length (sY s0) = d C -> length (sIr s0) = S (d C) -> length (sIc s0) = S (d C) ->
+  nth 0 (sIr s0) None = None -> nth (d C) (sIc s0) None = None ->
+  (forall i, i < d C -> pos_ok K qr mvI mvB A C s0 i (iterate stepN i s0)) ->
+  (forall k, k < d C ->
+     rpos_ok K qr mvI mvB A C (iterate stepN (d C) s0) (d C - 1 - k) (iterate stepN k (iterate stepN (d C) s0))) ->
+  forall q, Forall2 lt q (nsN C) -> ttval K (sY (iterate stepN (2 * d C) s0)) q = A q.
+Proof. exact (cross_exact_full_sweep K Rth qr mvI mvB A isinf f cb erank accuracy accdata C). Qed.
+
+(* the tensor RETURNED by cross_num at a sweep end: run without cache and without budget on an objective that returns
+   the target values (so the objective never returns None and the only exits are the sweep-end tests nswp / e /
+   e_vld / callback of the post-sweep block); after [fuel] sweeps the driver is at a sweep head with no stop pending;
+   both families of hypotheses hold for sweep fuel+1; cross_num (S fuel) = Ok s.  Then s is the state at the end of
+   that sweep, it is Done, and its cores evaluate to the target at every multi-index. *)
+Theorem C05_cross_exact_return :
+  (forall k I, f k I = Some (map A I)) -> m_max C = None ->
+  forall fuel s, Y0_ok (ponesN K) C -> pick_ok (pickN K qr mvI) -> c_cache C = None ->
+  s_pc (runN fuel) = Run true true 0 -> k_stop (sK (runN fuel)) = None ->
+  (forall i, i < d C -> pos_ok K qr mvI mvB A C (runN fuel) i (iterate stepN i (runN fuel))) ->
+  (forall k, k < d C ->
+     rpos_ok K qr mvI mvB A C (iterate stepN (d C) (runN fuel)) (d C - 1 - k)
+             (iterate stepN k (iterate stepN (d C) (runN fuel)))) ->
+  cross_num K qr mvI mvB isinf f cb erank accuracy accdata C (S fuel) = Ok s ->
+  s = runN (S fuel) /\ s_pc s = Done /\ forall q, Forall2 lt q (nsN C) -> ttval K (sY s) q = A q.
+Proof. exact (cross_exact_return K Rth qr mvI mvB A isinf f cb erank accuracy accdata C). Qed.
+End C05rtl.
+
+(* non-vacuity of the way back / the full sweep: same instance over Z as C05_cross_exact_ltr_example; together with
+   that example every hypothesis of C05_cross_exact_full_sweep holds for s0N ... *)
+Example C05_cross_exact_full_sweep_example :
+  length (sIc s0N) = S (d CN) /\
+  (forall k, k < d CN -> rpos_ok OZ qrI mvI0 mvB0 AZ CN s1N (d CN - 1 - k) (iterate stepZN k s1N)).
+Proof. exact ex_rtl_hyps. Qed.
+(* ... and the cores at the end of the sweep (4 steps) evaluate to the target; the driver is at the next sweep head *)
+Example C05_cross_exact_full_sweep_example_values :
+  map (ttval OZ (sY (iterate stepZN 4 s0N))) [[0; 0]; [1; 0]; [0; 1]; [1; 1]] = [1; 2; 2; 4]%Z /\
+  s_pc (iterate stepZN 4 s0N) = Run true true 0.
+Proof. exact ex_full_values. Qed.
